@@ -206,6 +206,21 @@ func buildEth(s *ethSpec, chainId *big.Int, k *key) (payload, sigHash []byte) {
 	return
 }
 
+// group order of secp256k1
+var curveN, _ = new(big.Int).SetString("fffffffffffffffffffffffffffffffebaaedce6af48a03bbfd25e8cd0364141", 16)
+
+func pad32(x *big.Int) []byte {
+	b := x.Bytes()
+	out := make([]byte, 32)
+	copy(out[32-len(b):], b)
+	return out
+}
+
+// ethWithSig encodes the payload of s with the given signature values.
+func ethWithSig(s *ethSpec, v, r, ss *big.Int) []byte {
+	return rlpList(append(s.items(), rlpBig(v), rlpBig(r), rlpBig(ss))...)
+}
+
 func weiToStr(v *big.Int) string {
 	if v.Sign() == 0 {
 		return "0"
@@ -793,6 +808,33 @@ func (r *runner) nativeMutants(h *honest, keys []*key, all []*honest) {
 		ss = append(ss, ssub{"same-hash-other-key", s.Bytes()})
 	}
 	ss = append(ss, ssub{"truncated-64", h.Sig[:64]}, ssub{"extended-66", append(append([]byte(nil), h.Sig...), 0)})
+	// algebraic relatives of the honest signature: mirrored s, mirrored r, other recovery id,
+	// each with the recovery id written as recid and as recid+27
+	{
+		r0 := new(big.Int).SetBytes(h.Sig[:32])
+		s0 := new(big.Int).SetBytes(h.Sig[32:64])
+		rc := h.Sig[64]
+		if rc >= 27 {
+			rc -= 27
+		}
+		nr, ns := new(big.Int).Sub(curveN, r0), new(big.Int).Sub(curveN, s0)
+		for _, rel := range []struct {
+			name string
+			r, s *big.Int
+			rc   byte
+		}{
+			{"mirrored-s-recid-flipped", r0, ns, rc ^ 1},
+			{"mirrored-s", r0, ns, rc},
+			{"recid-flipped", r0, s0, rc ^ 1},
+			{"mirrored-r", nr, s0, rc},
+			{"mirrored-r-recid-flipped", nr, s0, rc ^ 1},
+		} {
+			for _, off := range []byte{0, 27} {
+				x := append(append(pad32(rel.r), pad32(rel.s)...), rel.rc+off)
+				ss = append(ss, ssub{"relative:" + rel.name, x})
+			}
+		}
+	}
 	for _, s := range ss {
 		if !r.mine() || bytes.Equal(s.val, h.Sig) {
 			continue
@@ -979,6 +1021,50 @@ func (r *runner) ethMutants(h *honest, keys []*key, all []*honest, pairBits bool
 		tx := base
 		tx.ExtraData = "0x" + hex.EncodeToString(p)
 		r.mutant(h, "ethtx-rlp-"+describeByte(lay, h.Payload, p, bit/8), fmt.Sprintf("RLP payload byte %d bit %d (%02x -> %02x)", bit/8, bit%8, h.Payload[bit/8], p[bit/8]), &tx, nil)
+	}
+	// algebraic relatives of the payload signature (v parity flipped / s mirrored / r mirrored), once
+	// with nothing else recomputed and once with the wrapper hash recomputed for the new payload
+	{
+		var vv, rr, sv *big.Int
+		for _, spn := range lay {
+			x := new(big.Int).SetBytes(h.Payload[spn.body:spn.end])
+			switch spn.name {
+			case "v":
+				vv = x
+			case "r":
+				rr = x
+			case "s":
+				sv = x
+			}
+		}
+		vf := new(big.Int).Set(vv) // same chain id, other parity: 35+2c <-> 36+2c
+		if vv.Bit(0) == 1 {
+			vf.Add(vf, big.NewInt(1))
+		} else {
+			vf.Sub(vf, big.NewInt(1))
+		}
+		nr, ns := new(big.Int).Sub(curveN, rr), new(big.Int).Sub(curveN, sv)
+		for _, rel := range []struct {
+			name    string
+			v, r, s *big.Int
+		}{
+			{"mirrored-s-v-flipped", vf, rr, ns},
+			{"mirrored-s", vv, rr, ns},
+			{"v-flipped", vf, rr, sv},
+			{"mirrored-r", vv, nr, sv},
+			{"mirrored-r-v-flipped", vf, nr, sv},
+		} {
+			p := ethWithSig(sp, rel.v, rel.r, rel.s)
+			if r.mine() {
+				tx := base
+				tx.ExtraData = "0x" + hex.EncodeToString(p)
+				r.mutant(h, "payload-signature-relative", "RLP payload signature := "+rel.name+", nothing else recomputed", &tx, nil)
+			}
+			if r.mine() {
+				tx := wrapEth(sp, base.Source, base.ChainId, p)
+				r.mutant(h, "forge:payload-signature-relative-rehashed", "RLP payload signature := "+rel.name+", wrapper hash recomputed", &tx, nil)
+			}
+		}
 	}
 	// payload length edits
 	for _, e := range []struct {
